@@ -208,14 +208,19 @@ func (wd *world) server(c cfg, X [32]byte) (outs, outs) {
 }
 
 func (wd *world) client(c cfg, Y [32]byte) (outs, outs) {
-	ok, seed, auth := ntor.ClientHandshake(wd.x[c.X], pk(Y), wd.b[c.BCli].Public(), wd.n[c.NCli])
+	var B [32]byte
+	if c.BCli == "low" { // a degenerate identity public key in the client's bridge line
+		wd.count++
+		B = wd.low[wd.count%len(wd.low)]
+	} else {
+		copy(B[:], wd.b[c.BCli].Public().Bytes()[:])
+	}
+	ok, seed, auth := ntor.ClientHandshake(wd.x[c.X], pk(Y), pk(B), wd.n[c.NCli])
 	real := outs{ok: ok}
 	if seed != nil {
 		real.seed, real.auth = seed.Bytes()[:], auth.Bytes()[:]
 	}
-	var B [32]byte
 	var N [20]byte
-	copy(B[:], wd.b[c.BCli].Public().Bytes()[:])
 	copy(N[:], wd.n[c.NCli].Bytes()[:])
 	rok, rseed, rauth := ref.NtorClient(refKP(wd.x[c.X]), Y, B, N)
 	return real, outs{rok, rseed[:], rauth[:]}
